@@ -155,6 +155,14 @@ def cases(tier, seed):
                 for a in aggpool:
                     out.append((table, keys, style, [a], None, None, False))
                 out.append((table, keys, style, [('sum', 'i'), ('count*', None), ('max', 'd')], None, None, True))
+    # wide statements: nine and more targets, so that group keys sit at target positions 8 and above (after the aggregates, or
+    # invisible after them) while others sit in front
+    wide = [('count*', None), ('sum', 'i'), ('sum', 'd'), ('min', 'i'), ('max', 'd'), ('first', 's'), ('last', 't'), ('count', 's'), ('max', 's')]
+    for table in TABLES:
+        for keys in (['k', 'g'], ['g', 'k']):
+            for style in ('after-aggs', 'invisible', 'visible-expr', 'position'):
+                out.append((table, keys, style, wide[:7], None, None, False))
+                out.append((table, keys, style, wide, None, None, True))
     wheres = ['g = 1', 'i > 2', 'i IS NULL', 'g = 99', 'k != "a"']
     havings = [('count*', None, '>', 1), ('sum', 'i', '>', 4), ('count', 's', '<=', 1), ('max', 'i', '=', 9)]
     n = 150 if tier == 'quick' else 1500
@@ -182,6 +190,10 @@ def additivity(res):
                 if not tot:
                     if grp:
                         res.violation('h02:no-row-no-output', 'a selection with no qualifying row yields no output row', {'table': table}, grp, [])
+                    continue
+                if any(v is None for row in list(grp) + list(tot) for v in row):
+                    res.violation('h02:sum-of-nulls', 'sum of a group without non-NULL values is the zero of the type (counts are 0), never NULL',
+                                  {'table': table, 'col': col, 'key': key}, [tuple(g) for g in grp if None in g][:3] or tot, 'zero')
                     continue
                 sums = [sum((g[j] for g in grp), start=type(tot[0][j])()) for j in range(3)]
                 if tuple(sums) != tuple(tot[0]):
